@@ -243,6 +243,22 @@ func reservedNamesCases(rn *Runner) {
 		e := &EPath{Abs: true, Steps: []*Stp{dos, {Axis: "child", Test: NodeTest{Kind: "nsany", Prefix: pfx}, Abbrev: true}}}
 		rn.CheckQuery(&QCase{Doc: d, Start: Path{}, Env: env, E: e, Text: Render(e, RenderOpts{}), Family: "reserved-word-names"}, "p:* is every element in the binding of p", nonEmptyNodes)
 	}
+	// no binding at all (and only a variable, only a function): a prefix the DOCUMENT declares is still not one the QUERY has bound
+	for ei, env0 := range []*Env{{}, {Vars: []VarBind{numVar("n", 1)}}, {NS: []NSBind{{"zz", "urn:zz"}}}} {
+		for _, pfx := range []string{"u", "w", "xml", "xmlns"} {
+			for _, e := range []Expr{
+				&EPath{Abs: true, Steps: []*Stp{dos, {Axis: "child", Test: NodeTest{Kind: "nsany", Prefix: pfx}, Abbrev: true}}},
+				&EPath{Abs: true, Steps: []*Stp{dos, {Axis: "child", Test: NodeTest{Kind: "qn", Prefix: pfx, Local: "child"}, Abbrev: true}}},
+				&EPath{Abs: true, Steps: []*Stp{dos, {Axis: "attribute", Test: NodeTest{Kind: "qn", Prefix: pfx, Local: "self"}, Abbrev: true}}},
+				call("count", &EPath{Abs: true, Steps: []*Stp{{Axis: "child", Test: NodeTest{Kind: "name", Local: "r"}, Abbrev: true}, {Axis: "child", Test: NodeTest{Kind: "nsany", Prefix: pfx}, Abbrev: true}}}),
+			} {
+				for _, start := range []Path{{}, {{'c', 0}}} {
+					rn.CheckQuery(&QCase{Doc: d, Start: start, Env: env0, E: e, Text: Render(e, RenderOpts{}), Family: "reserved-word-names"},
+						fmt.Sprintf("a prefix the query has not bound is an error, whatever the document declares (environment %d)", ei), nil)
+				}
+			}
+		}
+	}
 	rn.DropDoc(d)
 }
 
